@@ -155,6 +155,12 @@ func (m *Engine) dispatchKeys(binds map[string]inputrc.Bind) (bind inputrc.Bind,
 		break
 	}
 
+	// Without any key to dispatch there is no command to run:
+	// don't return the one that was matched by the previous keys.
+	if len(read) == 0 {
+		return inputrc.Bind{}, false, read, matched
+	}
+
 	return m.active, prefix, read, matched
 }
 
